@@ -38,7 +38,7 @@ def gen(ctx):
                 l = l.rstrip("\n")
                 if l and not l.startswith("#"):
                     cases.append(l)
-    lens = [0, 1, 2, 3, 5, 8]
+    lens = [0, 1, 2, 3, 5, 8, 64, 65, 100, 257]
     for n in lens:
         pool = [None, 0, 1, -1, 2, -2, n, -n, n + 1, -n - 1, n - 1, I32MAX, -I32MAX, -I32MAX - 1]
         steps = [1, -1, 2, -2, 3, n + 1, -n - 1, I32MAX, -I32MAX, -I32MAX - 1]
@@ -52,7 +52,7 @@ def gen(ctx):
             cases.append(f"index\t{n}\t{i}")
     nrand = 3000 if ctx.tier == "quick" else 300000
     for _ in range(nrand):
-        n = rng.choice([rng.randrange(0, 12), rng.randrange(0, 60)])
+        n = rng.choice([rng.randrange(0, 12), rng.randrange(0, 60), rng.randrange(60, 300), rng.choice([63, 64, 65, 127, 128, 129, 255, 256, 257, 1000, 1025])])
         def bound():
             r = rng.random()
             if r < 0.15:
@@ -156,7 +156,38 @@ def run(ctx):
             base = rng.choice(arrs + nonarr)
             doc = base if w in ("%s", "@%s", "%s | [0]") else "{ " + G.enc_str("a") + " " + base + " }"
             ev.append((w % sl, doc, sl, w, base))
-        if getattr(ctx, "replay", None):
+        # an index or a slice applied to arrays that are not read from the document: literals, multi-select lists, function results,
+        # parenthesised expressions — judged by Python's own indexing / slicing
+        import json as _json
+        bases = [("`%s`", None), ("(@)", "@"), ("to_array(@)", "@"), ("[@][0]", "@"), ("(a)", "a"), ("a", "a"), ("@", "@"), ("reverse(reverse(@))", "@")]
+        ix = []
+        for _ in range(500 if ctx.tier == "quick" else 30000):
+            n = rng.choice([0, 1, 2, 3, 5, 70])
+            arr = list(range(10, 10 + n))
+            tmpl, src = rng.choice(bases)
+            if rng.random() < 0.5:
+                i = rng.choice([0, 1, -1, n, -n, n - 1, -n - 1, 2, -2])
+                sel, want = "[%d]" % i, (arr[i] if -n <= i < n else None)
+            else:
+                a, b = (rng.choice([None, 0, 1, -1, 2, -2, n, -n, -n - 1, n + 1]) for _ in range(2))
+                st = rng.choice([None, 1, -1, 2, -2, 3])
+                sel = "[%s:%s%s]" % ("" if a is None else a, "" if b is None else b, "" if st is None else ":%d" % st)
+                want = arr[slice(a, b, st)]
+            base = tmpl % _json.dumps(arr) if src is None else tmpl
+            doc = "n" if src is None else G.json_to_enc(arr if src == "@" else {"a": arr})
+            ix.append((base + sel, doc, G.json_to_enc(want)))
+        if getattr(ctx, "replay", None) and len(ctx.replay["case"]) == 3:
+            ix, ev = [tuple(ctx.replay["case"])], []
+        ii, mi = S.eval_run(ctx, [(e, d) for e, d, _ in ix])
+        kinds["eval_index_bases"] = len(ix)
+        for (e, d, want), i, m in zip(ix, ii, mi):
+            ctx.evaluations += 1
+            ci, cm = S.canon_eval(i), S.canon_eval(m)
+            if ci != "ok " + want:
+                ctx.violation("eval", [e, d, want], ci[:200], "ok " + want[:200], "index / slice result differs from Python's list[i] / list[a:b:c] (null when out of range)")
+            elif ci != cm:
+                ctx.violation("eval", [e, d, want], ci[:200], cm[:200], "index / slice differs from the model of the code")
+        if getattr(ctx, "replay", None) and len(ctx.replay["case"]) != 3:
             ev = [tuple(ctx.replay["case"])]
         im2, mo2 = S.eval_run(ctx, [(e, d) for e, d, *_ in ev])
         kinds["eval_step0_array"] = kinds["eval_nonarray"] = 0
